@@ -187,6 +187,22 @@ func main() {
 			}
 		}
 	}
+	// a burst of 4-5 futures due at the same instant with room in the pool: every hand-over to a freshly spawned
+	// worker happens back to back, each future still starts exactly once
+	for _, n := range []int{4, 5} {
+		for _, d := range []time.Duration{0, ms} {
+			for _, pool := range []int{3, 4, 10} {
+				ds := make([]time.Duration, n)
+				for i := range ds {
+					ds[i] = d
+				}
+				jobs = append(jobs, job(script(ds, strings.Repeat("-", n), false, pool, 0), adv(5-n, 0)))
+				if n == 4 {
+					jobs = append(jobs, job(script(ds, "-n--", false, pool, 0), adv(1, 0)))
+				}
+			}
+		}
+	}
 	// "never": a delay of math.MaxInt64 next to ordinary ones; it is cancelled 20ms later and must not have started,
 	// nor may it disturb the others
 	for _, ds := range [][]time.Duration{{never, ms}, {ms, never}, {never, 0}, {never, never}, {5 * ms, never, ms}} {
